@@ -139,10 +139,14 @@ B=[
 	if remote := c.IsRemotePin(spt.peerID); remote {'''),
  ('B31-failed-reordered','monitor/metrics/checker.go',
   '''	if !latest.Expired() {
+		// Seen healthy: an alert sent for an earlier failure no
+		// longer counts, a later failure is a new one.
+		mc.resetAlerts(pid, metric)
 		return 0.0, nil, 0.0, false
 	}
 	// The latest metric has expired
 ''','''	if expired := latest.Expired(); !expired {
+		mc.resetAlerts(pid, metric)
 		return 0, nil, 0, false
 	}
 	// The latest metric has expired
